@@ -51,13 +51,21 @@ fn ka(compressed: bool) -> Vec<u8> {
 type Outgoing = Vec<Vec<u8>>;
 
 /// `strobe`: 0 = ticker fires after one yield (the read is polled twice at most before it is dropped),
-/// 1 = random 1..400 us ticker, 2 = mixture, 3 = `tokio::time::timeout` around the read.
-pub fn real_session(c: &Corpus, r: &mut Rng, tr: Tr, compressed: bool, strobe: u64, p: &mut Part) -> Result<(), String> {
+/// 1 = random 1..400 us ticker, 2 = mixture, 3 = `tokio::time::timeout` around the read, 4 = polled once and
+/// dropped if pending.
+/// `burst`: several hundred small frames handed to the transport in one piece, so that one poll of the task serves
+/// hundreds of reads from the buffer (tokio's cooperative budget is 128 operations per task poll).
+pub fn real_session(c: &Corpus, r: &mut Rng, tr: Tr, compressed: bool, strobe: u64, burst: bool, p: &mut Part) -> Result<(), String> {
     let rt = tokio::runtime::Builder::new_current_thread().enable_all().build().map_err(|e| e.to_string())?;
     // frames: valid packets of every kind with keep-alives in between
-    let nframes = 10 + r.usize_below(70);
+    let nframes = if burst { 300 + r.usize_below(300) } else { 10 + r.usize_below(70) };
     let mut frames: Vec<Vec<u8>> = vec![];
-    for _ in 0..nframes {
+    for k in 0..nframes {
+        if burst {
+            // TINY pings with distinct request ids, a keep-alive now and then
+            frames.push(if k % 97 == 50 { ka(compressed) } else { vec![if compressed { 1 } else { 4 }, 3, 1 + (k % 250) as u8, 3] });
+            continue;
+        }
         if r.chance(1, 4) {
             frames.push(ka(compressed));
             continue;
@@ -91,6 +99,7 @@ pub fn real_session(c: &Corpus, r: &mut Rng, tr: Tr, compressed: bool, strobe: u
                 units.push(d);
             }
         },
+        _ if burst => units.push(stream.clone()),
         _ => {
             let mut pos = 0;
             while pos < stream.len() {
@@ -101,8 +110,8 @@ pub fn real_session(c: &Corpus, r: &mut Rng, tr: Tr, compressed: bool, strobe: u
             }
         },
     }
-    let pace = [0u64, 50, 400][r.usize_below(3)];
-    let label = format!("real-{:?}-{}-strobe{strobe}-pace{pace}", tr, mode_name(compressed));
+    let pace = if burst { 0 } else { [0u64, 50, 400][r.usize_below(3)] };
+    let label = format!("real-{:?}-{}-strobe{strobe}-pace{pace}{}", tr, mode_name(compressed), if burst { "-burst" } else { "" });
     let delivered = Arc::new(AtomicUsize::new(0));
     let sender_done = Arc::new(AtomicUsize::new(0));
     let tick_seed = r.next_u64();
@@ -277,7 +286,7 @@ pub fn real_session(c: &Corpus, r: &mut Rng, tr: Tr, compressed: bool, strobe: u
                 }
                 return Err(format!("stalled after {} of {n_expected} results (sender done: {})", out.results.len(), sender_done.load(Ordering::SeqCst)));
             }
-            let mode = if strobe == 2 { tick.below(2) } else { strobe };
+            let mode = if strobe == 2 { [0, 1, 4][tick.usize_below(3)] } else { strobe };
             let got = {
                 let fut = framed.read();
                 tokio::pin!(fut);
@@ -287,7 +296,18 @@ pub fn real_session(c: &Corpus, r: &mut Rng, tr: Tr, compressed: bool, strobe: u
                         let us = 1 + tick.below(400);
                         tokio::select! { biased; x = &mut fut => Some(x), _ = tokio::time::sleep(Duration::from_micros(us)) => None }
                     },
-                    _ => tokio::time::timeout(Duration::from_micros(1 + tick.below(400)), &mut fut).await.ok(),
+                    3 => tokio::time::timeout(Duration::from_micros(1 + tick.below(400)), &mut fut).await.ok(),
+                    _ => {
+                        // polled exactly once and dropped if it is not ready (`now_or_never`, a zero timeout): every
+                        // suspension point of the read, also one that only exists while the task's cooperative
+                        // budget is used up, becomes a cancellation point
+                        use futures_util::FutureExt;
+                        let x = (&mut fut).now_or_never();
+                        if x.is_none() {
+                            tokio::task::yield_now().await;
+                        }
+                        x
+                    },
                 }
             };
             match got {
